@@ -373,6 +373,28 @@ theorem setFlags_get {w : WState} {ai : Nat} {a : AcctV} {f : Nat} (ha : w.accts
   · subst h; simp [hlen]
   · simp [h]
 
+theorem startDeleverage_flags {c : RCtx} {shape : Res Unit} {o : StartLiqOut} (h : startDeleverage c shape = .ok o) :
+    o.flags = (c.a.flags ||| ACCOUNT_IN_DELEVERAGE.toNat) ||| ACCOUNT_IN_RECEIVERSHIP.toNat ∧ o.receiver = c.receiver := by
+  unfold startDeleverage at h
+  obtain ⟨_, _, h⟩ := Res.bind_ok h
+  obtain ⟨_, _, h⟩ := Res.bind_ok h
+  obtain ⟨_, _, h⟩ := Res.bind_ok h
+  obtain ⟨_, _, h⟩ := Res.bind_ok h
+  injection h with h
+  subst h
+  exact ⟨rfl, rfl⟩
+
+theorem endDeleverage_flags {c : RCtx} {stack : Nat} {o : EndLiqOut} (h : endDeleverage c stack = .ok o) :
+    o.flags = (c.a.flags &&& (Nat.xor ACCOUNT_IN_DELEVERAGE.toNat (2 ^ 64 - 1))) &&& (Nat.xor ACCOUNT_IN_RECEIVERSHIP.toNat (2 ^ 64 - 1)) := by
+  unfold endDeleverage at h
+  obtain ⟨_, _, h⟩ := Res.bind_ok h
+  obtain ⟨_, _, h⟩ := Res.bind_ok h
+  obtain ⟨_, _, h⟩ := Res.bind_ok h
+  obtain ⟨⟨sz, rp⟩, _, h⟩ := Res.bind_ok h
+  injection h with h
+  subst h
+  rfl
+
 theorem stepIn_pending {tx : List TOp} {i : Nat} {t : TOp} {w w' : WState} (ht : tx[i]? = some t)
     (h : w.stepIn tx i t = some w') (hp : Pending tx i w) : Pending tx (i + 1) w' := by
   cases t with
@@ -415,6 +437,8 @@ theorem stepIn_pending {tx : List TOp} {i : Nat} {t : TOp} {w w' : WState} (ht :
             | startFlash _ _ _ => simp [isEndFlashOf] at hend
             | startLiq _ _ _ => simp [isEndFlashOf] at hend
             | endLiq _ _ _ _ _ => simp [isEndFlashOf] at hend
+            | startDelev _ _ _ => simp [isEndFlashOf] at hend
+            | endDelev _ _ _ => simp [isEndFlashOf] at hend
         · simp only [hki, if_false] at hk
           obtain ⟨j, s, hij, hj⟩ := hp k a' hk hfl
           refine ⟨j, s, ?_, hj⟩
@@ -521,6 +545,59 @@ theorem stepIn_pending {tx : List TOp} {i : Nat} {t : TOp} {w w' : WState} (ht :
             simp only [hfl] at hx
             have e : ACCOUNT_IN_RECEIVERSHIP.toNat = 16 := by decide
             rw [e, and_keeps_bit1 a.flags (Nat.xor 16 (2 ^ 64 - 1)) (by decide)] at hx
+            exact hx) k a' hk hfl'
+        obtain ⟨j, s, hij, hj⟩ := hp k y hy hfy
+        refine ⟨j, s, ?_, hj⟩
+        rcases Nat.lt_or_ge i j with h1 | h1
+        · omega
+        · have : j = i := by omega
+          subst this; rw [ht] at hj; cases hj
+      · cases h
+    · cases h
+  | startDelev ai signer recordOk =>
+    simp only [WState.stepIn] at h
+    split at h
+    · rename_i a ha
+      split at h
+      · rename_i o ho
+        injection h with h; subst h
+        have hfl : o.flags = (a.flags ||| ACCOUNT_IN_DELEVERAGE.toNat) ||| ACCOUNT_IN_RECEIVERSHIP.toNat := (startDeleverage_flags ho).1
+        intro k a' hk hfl'
+        obtain ⟨y, hy, hfy⟩ := set_noNew (a' := { a with flags := o.flags, recReceiver := o.receiver, recCache := o.cache }) ha
+          (by
+            intro hx
+            rw [inFlash_iff] at hx ⊢
+            simp only [hfl] at hx
+            have e : ACCOUNT_IN_RECEIVERSHIP.toNat = 16 := by decide
+            have e2 : ACCOUNT_IN_DELEVERAGE.toNat = 32 := by decide
+            rw [e, e2, or_keeps_bit1 (a.flags ||| 32) 16 (by decide), or_keeps_bit1 a.flags 32 (by decide)] at hx
+            exact hx) k a' hk hfl'
+        obtain ⟨j, s, hij, hj⟩ := hp k y hy hfy
+        refine ⟨j, s, ?_, hj⟩
+        rcases Nat.lt_or_ge i j with h1 | h1
+        · omega
+        · have : j = i := by omega
+          subst this; rw [ht] at hj; cases hj
+      · cases h
+    · cases h
+  | endDelev ai signer recordOk =>
+    simp only [WState.stepIn] at h
+    split at h
+    · rename_i a ha
+      split at h
+      · rename_i o ho
+        injection h with h; subst h
+        have hfl : o.flags = (a.flags &&& (Nat.xor ACCOUNT_IN_DELEVERAGE.toNat (2 ^ 64 - 1))) &&& (Nat.xor ACCOUNT_IN_RECEIVERSHIP.toNat (2 ^ 64 - 1)) :=
+          endDeleverage_flags ho
+        intro k a' hk hfl'
+        obtain ⟨y, hy, hfy⟩ := set_noNew (a' := { a with flags := o.flags, recReceiver := 0 }) ha
+          (by
+            intro hx
+            rw [inFlash_iff] at hx ⊢
+            simp only [hfl] at hx
+            have e : ACCOUNT_IN_RECEIVERSHIP.toNat = 16 := by decide
+            have e2 : ACCOUNT_IN_DELEVERAGE.toNat = 32 := by decide
+            rw [e, e2, and_keeps_bit1 _ (Nat.xor 16 (2 ^ 64 - 1)) (by decide), and_keeps_bit1 a.flags (Nat.xor 32 (2 ^ 64 - 1)) (by decide)] at hx
             exact hx) k a' hk hfl'
         obtain ⟨j, s, hij, hj⟩ := hp k y hy hfy
         refine ⟨j, s, ?_, hj⟩
@@ -809,6 +886,22 @@ theorem stepIn_inv {tx : List TOp} {i : Nat} {t : TOp} {w w' : WState} (h : w.st
       · cases h
     · cases h
   | endLiq ai signer recordOk walletOk feeMax =>
+    simp only [WState.stepIn] at h
+    split at h
+    · rename_i a ha
+      split at h
+      · injection h with h; subst h; exact setAcct_inv hi ha rfl
+      · cases h
+    · cases h
+  | startDelev ai signer recordOk =>
+    simp only [WState.stepIn] at h
+    split at h
+    · rename_i a ha
+      split at h
+      · injection h with h; subst h; exact setAcct_inv hi ha rfl
+      · cases h
+    · cases h
+  | endDelev ai signer recordOk =>
     simp only [WState.stepIn] at h
     split at h
     · rename_i a ha
